@@ -7,7 +7,7 @@ use crate::{
         qos_policy::{DestinationOrderQosPolicyKind, HistoryQosPolicyKind, OwnershipQosPolicyKind},
         sample_info::{InstanceStateKind, SampleInfo, SampleStateKind, ViewStateKind},
         status::SampleRejectedStatusKind,
-        time::{DurationKind, TIME_INVALID_NSEC, TIME_INVALID_SEC, Time},
+        time::{Duration, DurationKind, TIME_INVALID_NSEC, TIME_INVALID_SEC, Time},
     },
     transport::types::{ChangeKind, Guid},
 };
@@ -122,6 +122,11 @@ impl InstanceState {
 
     pub fn last_received_time_stamp(&self) -> Time {
         self.last_received_time_stamp
+    }
+
+    /// A deadline period elapsed without a sample: the next miss is due one period later
+    pub fn rearm_deadline(&mut self, period: Duration) {
+        self.last_received_time_stamp += period;
     }
 }
 
